@@ -24,7 +24,11 @@ lazy_static! {
 pub fn eval_int(expression: Pairs<Rule>) -> i64 {
     PRATT_PARSER
         .map_primary(|primary| match primary.as_rule() {
-            Rule::num => primary.as_str().parse::<i64>().unwrap(),
+            Rule::num => match primary.as_str().parse::<i64>() {
+                Ok(n) => n,
+                // literal out of the i64 range: saturate, like the `/ 0` case below
+                Err(_) => primary.as_str().parse::<f64>().unwrap_or(0.0) as i64,
+            },
             Rule::expr => eval_int(primary.into_inner()),
             _ => unreachable!(),
         })
